@@ -54,7 +54,8 @@ def ir_rules(run, u, r_static, r_lookup, r_copy, r_access, r_table=None):
             if sv and not tb:
                 c = re.search(r"::static_vptr<(.*)>$", sv[0]).group(1)
                 shape_ok = (v == ("global", sv[0])) if indirect else (v == ("load", ("global", sv[0])))
-                ok = shape_ok and vptr.pointee(c) == other and "shared_ptr" not in c and ("<%s>::static_vptr" % P) in sv[0].replace("method_tables<", "<")
+                # update() installs static_vptr<X> for the registered, cv-unqualified class X only
+                ok = shape_ok and vptr.pointee(c) == other and "shared_ptr" not in c and not re.search(r"\bconst\b", c) and ("<%s>::static_vptr" % P) in sv[0].replace("method_tables<", "<")
                 run.instance(r_static, "%s: static-type route stores static_vptr<%s>" % (short, c), ins.where(), ok=ok)
                 if not ok:
                     run.violation(r_static, "virtual_ptr::%s|static-vptr" % ("final" if is_final else "virtual_ptr(Other&&)"),
@@ -173,7 +174,25 @@ def _strip_deref(k):
     return tuple(_strip_deref(x) if isinstance(x, tuple) else x for x in k)
 
 
+def table_writer_overwrites(run, ast, rule):
+    """publish_vptrs must (re)assign every key: a non-overwriting insertion keeps the previous update's pointer"""
+    for f in crules._fn(ast, r"vptr_(vector|map)<.*>::publish_vptrs<"):
+        st = [n for n in astq.walk(f["body"]) if (n.get("k") == "BinaryOperator" and n.get("op") == "=" or (n.get("k") == "CXXOperatorCallExpr" and n.get("oop") == "=")) and any(
+            (astq.refname(x) or "").endswith("::vptrs") for x in astq.walk(n["c"][0] if n.get("k") == "BinaryOperator" else n["c"][1]))]
+        ins = [n for n in astq.walk(f["body"]) if n.get("k") == "CXXMemberCallExpr" and re.search(r"::(emplace|insert|try_emplace|emplace_hint)(<.*)?$", n.get("callee") or "") and any(
+            (astq.refname(x) or "").endswith("::vptrs") for x in astq.walk(n["c"][0]))]
+        ioa = [n for n in astq.walk(f["body"]) if n.get("k") == "CXXMemberCallExpr" and re.search(r"::insert_or_assign(<.*)?$", n.get("callee") or "") and any(
+            (astq.refname(x) or "").endswith("::vptrs") for x in astq.walk(n["c"][0]))]
+        ok = bool(st or ioa) and not ins
+        run.instance(rule, "%s: every published key is assigned (overwritten) on every update" % crules.short(f)[:80], (f["file"], f["line"]), ok=ok)
+        if ins:
+            run.violation(rule, "%s|non-overwriting-insert" % re.sub(r"<.*", "", crules.short(f)), "publish_vptrs uses %s: an id already in the table keeps the v-table pointer of the previous update" % ins[0]["callee"].split("::")[-1], (f["file"], ins[0]["l"]))
+        elif not (st or ioa):
+            run.broken.append("%s: no store into the v-table pointer table recognised" % crules.short(f)[:80])
+
+
 def table_writer_rule(run, ast, rule):
+    table_writer_overwrites(run, ast, rule)
     # the writer of the table: vptrs[H(id)] = class's vptr for every id
     for f in crules._fn(ast, r"vptr_(vector|map)<.*>::publish_vptrs<"):
         st = [n for n in astq.walk(f["body"]) if (n.get("k") == "BinaryOperator" and n.get("op") == "=" or (n.get("k") == "CXXOperatorCallExpr" and n.get("oop") == "=")) and any(
